@@ -277,6 +277,8 @@ pub fn c06_resumed(a: &Analysis) -> Vec<Violation> {
             .collect();
         match op.returned.first() {
             Some((_, got)) => {
+                // an operation abandoned with an expired session (or by the end of the context)
+                // reports ContextExited; whether the session had expired is C17's business
                 if got.err_variant() == Some("ContextExited") || completing.is_empty() {
                     continue;
                 }
@@ -297,6 +299,9 @@ pub fn c06_resumed(a: &Analysis) -> Vec<Violation> {
 /// C06 — outbound QoS handshake on the wire and reported outcome.
 pub fn c06(a: &Analysis) -> Vec<Violation> {
     let mut out = Vec::new();
+    // ContextExited is what an operation legitimately reports once the context is gone or
+    // run() has returned, and only then
+    let ctx_ended = a.ctx_gone.is_some() || a.run_returned();
     let quiet_end = a.ctx_gone.is_none() && !a.run_returned() && a.fully_consumed();
     for op in a.ops.values() {
         let OpSpec::Publish(spec) = &op.spec else { continue };
@@ -319,7 +324,7 @@ pub fn c06(a: &Analysis) -> Vec<Violation> {
             out.push(v("C06", "C06/publish-count", format!("op {}: {} PUBLISH packets", op.idx, pubs.len())));
         }
         if pubs.is_empty() {
-            if quiet_end && op.cancelled.is_none() && op.outcome().is_some() && op.err() != Some("ContextExited") {
+            if quiet_end && op.cancelled.is_none() && op.outcome().is_some() {
                 out.push(v("C06", "C06/publish-count", format!("op {} returned {:?} without any PUBLISH on the wire", op.idx, op.outcome())));
             }
             continue;
@@ -350,7 +355,7 @@ pub fn c06(a: &Analysis) -> Vec<Violation> {
                     if op.outcome() == Some(&OpOutcome::Done) && rs < wp.seq_last {
                         out.push(v("C06", "C06/result/qos0/early", format!("op {} completed before its last byte was written", op.idx)));
                     }
-                    if op.outcome() != Some(&OpOutcome::Done) && op.err() != Some("ContextExited") && op.err() != Some("SocketClosed") {
+                    if op.outcome() != Some(&OpOutcome::Done) && !(op.err() == Some("ContextExited") && ctx_ended) && op.err() != Some("SocketClosed") {
                         out.push(v("C06", "C06/result/qos0/error", format!("op {} returned {:?}", op.idx, op.outcome())));
                     }
                 } else if quiet_end && op.cancelled.is_none() {
@@ -368,7 +373,7 @@ pub fn c06(a: &Analysis) -> Vec<Violation> {
                     let Packet::Puback(x) = ack.p.pkt.as_ref().unwrap() else { continue };
                     let class = if x.reason >= 0x80 { "failing" } else { "success" };
                     let want = expected_outcome(op, ack.p.pkt.as_ref().unwrap());
-                    if !outcome_matches(got, &want) && got.err_variant() != Some("ContextExited") {
+                    if !outcome_matches(got, &want) && !(got.err_variant() == Some("ContextExited") && ctx_ended) {
                         out.push(v("C06", format!("C06/result/qos1/{class}"), format!("op {}: PUBACK reason 0x{:02x} gave {:?}", op.idx, x.reason, got)));
                     }
                 }
@@ -391,7 +396,7 @@ pub fn c06(a: &Analysis) -> Vec<Violation> {
                         }
                         if let Some((_, got)) = op.returned.first() {
                             let want = expected_outcome(op, rec.unwrap().p.pkt.as_ref().unwrap());
-                            if !outcome_matches(got, &want) && got.err_variant() != Some("ContextExited") {
+                            if !outcome_matches(got, &want) && !(got.err_variant() == Some("ContextExited") && ctx_ended) {
                                 out.push(v("C06", "C06/result/qos2/failing-pubrec", format!("op {}: got {:?}", op.idx, got)));
                             }
                         }
@@ -418,7 +423,7 @@ pub fn c06(a: &Analysis) -> Vec<Violation> {
                             let Packet::Pubcomp(x) = comp.p.pkt.as_ref().unwrap() else { continue };
                             let class = if x.reason >= 0x80 { "failing-pubcomp" } else { "success" };
                             let want = expected_outcome(op, comp.p.pkt.as_ref().unwrap());
-                            if !outcome_matches(got, &want) && got.err_variant() != Some("ContextExited") {
+                            if !outcome_matches(got, &want) && !(got.err_variant() == Some("ContextExited") && ctx_ended) {
                                 out.push(v("C06", format!("C06/result/qos2/{class}"), format!("op {}: PUBCOMP reason 0x{:02x} gave {:?}", op.idx, x.reason, got)));
                             }
                         }
@@ -1578,7 +1583,7 @@ pub fn c12(a: &Analysis, twin: &Analysis, probe_from: Option<usize>) -> Vec<Viol
             }
             match op.outcome() {
                 Some(o) if o.err_variant() == Some("MaximumPacketSizeExceeded") => {}
-                Some(o) if o.err_variant() == Some("ContextExited") => {}
+                Some(o) if o.err_variant() == Some("ContextExited") && (a.ctx_gone.is_some() || a.run_returned()) => {}
                 Some(o) => out.push(v("C12", format!("C12/written-over-limit/{kind}/result"), format!("op {}: L={l} > M={} but the operation returned {:?}", op.idx, m.unwrap(), o))),
                 None => {
                     if a.ctx_gone.is_none() && !a.run_returned() && op.cancelled.is_none() && a.fully_consumed() {
